@@ -2,7 +2,7 @@ import PhyModel.Proofs.Positivity
 /-! Positivity of the proposal tables and incremental weights (C19 `weights_positive`), given that
 every tree obtained by placing the data point is `Good` (see `PlacementIdx` for that). -/
 namespace PhyModel
-open Orders
+open Orders C19P
 
 theorem numRoots_eq_length : ∀ f : DF, f.numRoots = f.roots.length
   | .nil => rfl
